@@ -150,6 +150,20 @@ func compilePkgs(g *lookup, pkgs []*token, optimize bool) (ins []instruction, sl
 			Imports:  map[string]string{},
 			Optimize: optimize,
 		}
+		// the functions of a package are in scope in the whole package: their names are entered before
+		// any body is compiled, so that a use compiled before the declaration is not taken for a
+		// builtin of the same name (print, println)
+		export := ""
+		for _, t := range tok.Tokens {
+			switch t.Symbol {
+			case "package":
+				export = t.Tokens[len(t.Tokens)-1].Text
+			case "function":
+				if export != "" {
+					g.Index(export + "." + t.Tokens[0].Text)
+				}
+			}
+		}
 		var res []instruction
 		res, slots, err = cmp.run(tok)
 		if err != nil {
